@@ -19,10 +19,10 @@ EXPLANATION = (
     "radii below the table minimum; (AXIS) the table is interpolated along its aperture axis with scipy's defaults (linear, exact at knots, error outside - no kind=, "
     "fill_value=, bounds_error=False); flux from flux and error from error; (UNIT-1) abscissa and query reach scipy as numbers in the same unit, and no comparison mixes a "
     "bare number with a dimensional quantity; model names and central wavelength are copied unchanged; the single-aperture branch repeats the only column with one row per model.")
-NOT_DECIDED = ["linearity and knot-exactness of scipy.interpolate.interp1d (library)", "the log-log aperture(wavelength) construction and .diagonal() of interpolate_variable beyond its clamp and its interp1d call"]
+NOT_DECIDED = ["linearity and knot-exactness of scipy.interpolate.interp1d (library)", "the edge extrapolation and .diagonal() step of interpolate_variable"]
 ASSUMPTIONS = ["interp1d(x, y)(q) with default options is the piecewise-linear interpolant, raising outside [x0, xN]", "numpy basic slices are views"]
 TRUSTED = ["python ast", "sedlint E4/E5", "scipy interp1d defaults"]
-MIN = {'CFG-7': 8, 'UNIT-1': 3, 'AXIS': 3}
+MIN = {'CFG-7': 8, 'UNIT-1': 3, 'AXIS': 3, 'PERM-10': 1}
 TECHNIQUE = 'static analysis: AST value numbering with alias tracking of in-place stores and unit tags; uninterpreted linear-interpolation atom'
 
 VOCAB = {'q', 'cap', 'flux', 'err', 'names', 'cw', 'wav', 'fw'}
@@ -33,6 +33,7 @@ class H(Hooks):
     def __init__(self, single=False):
         self.single = single
         self.i1d = []
+        self.npinterp = []
 
     def decide(self, interp, test, env, mod):
         try:
@@ -60,7 +61,22 @@ class H(Hooks):
             r = interp.libcall(name, args, kwargs, node, mod)
             self.i1d.append((args, kwargs, r, node))
             return r
+        if name in ('numpy.interp',):
+            self.npinterp.append((args, kwargs, node))
         return NotImplemented
+
+
+def _clamp_constant(fv):
+    for t, v, st in stores(fv.node):
+        if isinstance(t, ast.Subscript) and isinstance(t.value, ast.Name) and len(fv.params) > 2 and t.value.id == fv.params[2] and isinstance(t.slice, ast.Compare) \
+                and isinstance(t.slice.ops[0], ast.Gt) and 'max()' in up(v):
+            k = 1.0
+            if isinstance(v, ast.BinOp) and isinstance(v.op, ast.Mult):
+                for side in (v.left, v.right):
+                    if isinstance(side, ast.Constant) and isinstance(side.value, (int, float)):
+                        k = float(side.value)
+            return k
+    return None
 
 
 def clamp_ref(q, mx, k=1):
@@ -157,6 +173,44 @@ def run(ctx):
         okx = alg.is_zero(r.x.poly * (r.x.unit.pow(-1) if r.x.unit is not None else 1) - capn)[0] and r.y.poly == sym('flux', A, N) and not kwargs
         ctx.expect(okx, 'AXIS', 'interpolate_variable flux interpolator', loc(fv, node.lineno), 'interp1d(apertures[AU], flux along the aperture axis), scipy defaults',
                    'interp1d(%s, %s, %s)' % (alg.show(r.x.poly, 60), alg.show(r.y.poly, 60), sorted(kwargs)), 'variable-interp1d')
+    # PERM-10: the aperture-versus-wavelength interpolator pairs each filter wavelength with that filter's own aperture,
+    # on an increasing abscissa
+    fw, qv = sym('fw', 'w'), sym('q', 'w')
+    capn = cap / au
+    mxn = mk_fn('max', B(A, capn))
+    order = alg.array_fn('argsort', 'w', fw)
+    def gathered(p_):
+        return mk_fn('at', B('w', p_), P(order))
+    cands = []
+    for args, kwargs, r, node in h.i1d:
+        if isinstance(r, _Interp1d) and 'fw' in alg.leaf_syms(r.x.poly)[0]:
+            cands.append(('interp1d', r.x, r.y, kwargs, node))
+    for args, kwargs, node in h.npinterp:
+        if len(args) >= 3 and all(isinstance(a_, Arr) for a_ in args[:3]) and 'fw' in alg.leaf_syms(args[1].poly)[0]:
+            cands.append(('np.interp', args[1], args[2], kwargs, node))
+    if not cands:
+        ctx.undecided('PERM-10', 'aperture(wavelength) interpolator', loc(fv), 'no interpolator over the filter wavelengths found')
+    else:
+        kind, xv, yv, kwargs, node = cands[0]
+        syms_y = alg.leaf_syms(yv.poly)[0]
+        # the ordinate must be the (clamped) request; find the clamp constant from the term itself: q + [max<q](k*max - q)
+        def y_ref(k, gather):
+            qc_ = qv + lt(mxn, qv) * (k * mxn - qv)
+            return alg.log10(gathered(qc_) if gather else qc_)
+        def x_ref(gather):
+            return alg.log10(gathered(fw) if gather else fw)
+        kk = Fraction(repr(kfound_pre)) if (kfound_pre := _clamp_constant(fv)) is not None else Fraction(1)
+        sorted_pair = alg.is_zero(xv.poly - x_ref(True))[0] and alg.is_zero(yv.poly - y_ref(kk, True))[0]
+        plain_pair = alg.is_zero(xv.poly - x_ref(False))[0] and alg.is_zero(yv.poly - y_ref(kk, False))[0]
+        if sorted_pair:
+            ctx.ok('PERM-10', 'aperture(wavelength) interpolator', loc(fv, node.lineno), 'abscissa log10(wavelengths[order]) and ordinate log10(apertures[order]) share order = argsort(wavelengths)')
+        elif plain_pair and kind == 'interp1d' and 'assume_sorted' not in kwargs:
+            ctx.ok('PERM-10', 'aperture(wavelength) interpolator', loc(fv, node.lineno), 'wavelengths and apertures passed in filter order to interp1d, which sorts the pairs itself')
+        elif plain_pair:
+            ctx.violation('PERM-10', 'aperture(wavelength) interpolator', loc(fv, node.lineno), '%s needs an increasing abscissa but the filter wavelengths are passed in the order the user listed them' % kind, 'unsorted-abscissa')
+        else:
+            ctx.violation('PERM-10', 'aperture(wavelength) interpolator', loc(fv, node.lineno),
+                          'wavelengths and apertures are not paired filter by filter: abscissa %s ; ordinate %s' % (alg.show(xv.poly, 120), alg.show(yv.poly, 160)), 'pairing')
     # the clamp statement: apertures[apertures > max] = k * max
     kfound = None
     for t, v, st in stores(fv.node):
